@@ -854,7 +854,14 @@ impl Walrus {
 
         // Plan tail if we're at the end of sealed chain
         if !sealed_partial && cur_idx >= chain_len_at_plan {
-            if let Some((active_block, written)) = writer_snapshot.clone() {
+            // The writer snapshot was taken before the column state was captured. If the writer
+            // rotated in between, the snapshotted block is part of `chain` by now and has been
+            // planned (or already consumed) as a sealed block: reading it again as the tail
+            // would deliver its entries twice.
+            let live_tail = writer_snapshot
+                .clone()
+                .filter(|(b, _)| !chain.iter().any(|c| c.id == b.id));
+            if let Some((active_block, written)) = live_tail {
                 // Determine start of tail read
                 let mut tail_start = if start_offset.is_some() {
                     tail_offset // 'rem'
